@@ -270,8 +270,8 @@ def r5_project_region(ctx):
         ok = None
         if v[0] == "tuple" and len(v[1]) == 4 and len(pr) == 1:
             def mm(t):
-                if t[0] == "call" and t[1][0] == "attr" and t[1][2] in ("min", "max") and not t[2]:
-                    return t[1][2], t[1][1]
+                if Q.minmax_of(t) is not None:
+                    return Q.minmax_of(t)
                 if t[0] == "call" and callee(t) in ("numpy.min", "numpy.max", "numpy.nanmin", "numpy.nanmax") and len(t[2]) == 1:
                     return callee(t).split(".")[1].replace("nan", ""), t[2][0]
                 return None, None
